@@ -580,8 +580,7 @@ impl<H: DnsHandle> DnssecDnsHandle<H> {
         }
 
         // if it was just the root DNSKEYS with no RRSIG, we'll accept the entire set, or none
-        if !dnskey_proofs.is_empty() && dnskey_proofs.iter().all(|(proof, ..)| proof.is_secure())
-        {
+        if !dnskey_proofs.is_empty() && dnskey_proofs.iter().all(|(proof, ..)| proof.is_secure()) {
             let proof = dnskey_proofs.pop().unwrap(/* This can not happen due to above test */);
             return Ok(RrsetProof {
                 proof: proof.0,
@@ -729,7 +728,7 @@ impl<H: DnsHandle> DnssecDnsHandle<H> {
                 // response whose answer section merely lacks the DS records, but still carries
                 // something else (such as the RRSIG left over after the DS RRs were stripped in
                 // transit), did not go through any denial-of-existence check and proves nothing.
-                if response.answers.is_empty() {
+                if response.answers.is_empty() && proves_insecure_delegation(&zone, &response) {
                     debug!(
                         %zone,
                         "marking zone as insecure based on secure NSEC/NSEC3 proof or insecure parent zone",
@@ -745,7 +744,63 @@ impl<H: DnsHandle> DnssecDnsHandle<H> {
 
         Err(ProofError::ds_should_exist(zone))
     }
+}
 
+/// Checks that a validated DS denial really is the proof of an insecure *delegation*
+/// ([RFC 6840 section 4.4](https://datatracker.ietf.org/doc/html/rfc6840#section-4.4)).
+///
+/// The zone cut `zone` was located with unvalidated NS queries, so whoever can forge those can
+/// name any signed owner name (say, `www.example.`) as a cut.  The genuine, signed "no DS at
+/// www.example." answer of the zone would then turn every unsigned record at that name into
+/// accepted, insecure data.  The NSEC or NSEC3 record matching the delegation name must
+/// therefore show a delegation (NS bit) that is neither the zone apex (SOA bit) nor secure (DS
+/// bit).  A delegation that has no matching NSEC3 record is acceptable only under opt-out.  A
+/// denial without any secure NSEC/NSEC3 record comes from an insecure parent, where there is
+/// nothing to check.
+fn proves_insecure_delegation(zone: &Name, response: &DnsResponse) -> bool {
+    let mut denial_seen = false;
+    let mut opt_out_seen = false;
+    for record in response.authorities.iter().filter(|r| r.proof.is_secure()) {
+        let type_set = match &record.data {
+            RData::DNSSEC(DNSSECRData::NSEC(nsec)) => {
+                denial_seen = true;
+                if record.name != *zone {
+                    continue;
+                }
+                nsec.type_set()
+            }
+            RData::DNSSEC(DNSSECRData::NSEC3(nsec3)) => {
+                denial_seen = true;
+                opt_out_seen |= nsec3.opt_out();
+                let Ok(hash) = nsec3
+                    .hash_algorithm()
+                    .hash(nsec3.salt(), zone, nsec3.iterations())
+                else {
+                    continue;
+                };
+                let hashed_label = data_encoding::BASE32_DNSSEC.encode(hash.as_ref());
+                let owner_matches = record
+                    .name
+                    .iter()
+                    .next()
+                    .is_some_and(|label| label.eq_ignore_ascii_case(hashed_label.as_bytes()));
+                if !owner_matches {
+                    continue;
+                }
+                nsec3.type_set()
+            }
+            _ => continue,
+        };
+
+        return type_set.contains(RecordType::NS)
+            && !type_set.contains(RecordType::SOA)
+            && !type_set.contains(RecordType::DS);
+    }
+
+    !denial_seen || opt_out_seen
+}
+
+impl<H: DnsHandle> DnssecDnsHandle<H> {
     /// Verifies that the key is a trust anchor.
     ///
     /// # Returns
